@@ -1,7 +1,7 @@
 # One claim()/na() per property. Executed by genmanifest.py.
 
 claim("C20",
-      "Aliasing is a static notion: the check decides on all paths that (*Message).clone is a deep, exhaustive copy (every struct field enumerated from go/types; slice fields through a fresh backing array), that every Handler.Serve hand-over in ServeMux.Serve / ServeAsync.Serve receives a clone of the dispatcher's own parameter taken anew per hand-over and in the dispatching goroutine, and that neither dispatcher stores the message or a clone. That is the property itself up to handlers sharing state by other means.",
+      "Aliasing is a static notion: the check decides on all paths that (*Message).clone is a deep, exhaustive copy (every struct field enumerated from go/types; slice fields through a fresh backing array), that every Handler.Serve hand-over in ServeMux.Serve / ServeAsync.Serve receives a clone of the dispatcher's own parameter (or a Message filled in place by the same criteria) taken anew per hand-over and in the dispatching goroutine, and that neither dispatcher stores the message or a clone. That is the property itself up to handlers sharing state by other means.",
       "Not covered: handlers that share state among themselves outside the message; user Handler implementations.",
       "SSA value-origin + CFG path rules (fresh-clone-per-hand-over, field-exhaustive deep copy, no back-channel)",
       "DESIGN.md section 4, C20")
